@@ -206,6 +206,13 @@ def d3_window_rules(ctx):
                        key="D3:none-received-implies-disconnected:%s" % a.fn.stable, loc=a.loc)
 
 
+def d3b_per_packet_order(ctx):
+    """The reference applies, for each acknowledged number in turn: the earned +29 on the owning link, then +1 on every link.
+    The +29 guard reads the window, so the interleaving is part of the window evolution (shared with C02.D5)."""
+    from . import C02
+    C02.d5_srtla_ack_attribution(ctx, rule="D3b")
+
+
 def d4_no_time_recovery(ctx):
     C06.d5_classic_no_time_recovery(ctx)
 
@@ -239,7 +246,7 @@ def d5_no_other_route_influence(ctx):
                 ctx.chk.ob("D5", "%s selector runs exactly in %s mode" % (sname(st_), want), ok, "PC = %s" % spa.show(pc), key="D5:mode-dispatch:%s" % want)
 
 
-RULES = [d1_inputs, d2_score_and_argmax, d3_window_rules, d4_no_time_recovery, d5_no_other_route_influence]
+RULES = [d1_inputs, d2_score_and_argmax, d3_window_rules, d3b_per_packet_order, d4_no_time_recovery, d5_no_other_route_influence]
 
 
 def run(ctx):
